@@ -187,7 +187,12 @@ func DecodeIdFromList(cborData []byte) (int, error) {
 	if listLen == 0 {
 		return 0, errors.New("cannot return first item from empty list")
 	}
-	if listLen < int(CborMaxUintSimple) {
+	// The first item sits at byte 1 only when the list header is the
+	// single-byte form (0x80..0x97). With a 2/3/5/9-byte header byte 1 is part
+	// of the length, so those encodings must take the slow path below
+	if listLen < int(CborMaxUintSimple) &&
+		cborData[0] >= CborTypeArray &&
+		cborData[0] <= (CborTypeArray+CborMaxUintSimple) {
 		if cborData[1] <= CborMaxUintSimple {
 			return int(cborData[1]), nil
 		}
